@@ -523,8 +523,9 @@ def sweep_deck(res, deck, text, rng, do_points, do_files=True):
                                      f'{want}', None))
             if obs_like.result[0] == 'ok':
                 root = gen.resolve(by_id, cell['id'])
-                want_ast = gen.expected_ast_repr(root['expr'])
-                got_ast = repr(obs_like.result[1][cell['id']].geometry)
+                want_ast = gen.expected_ast(root['expr'])
+                got_ast = gen.ast_canon(
+                    obs_like.result[1][cell['id']].geometry)
                 if want_ast != got_ast:
                     failures.append(('geometry', f'cell {cell["id"]}: '
                                      f'geometry {got_ast}, expected '
